@@ -172,7 +172,28 @@ func (rn *runner) codecCase(k int, r *prng.R) {
 		b, cuts = c.rawGen(g)
 	} else {
 		v = c.gen(g)
-		want0 = c.showFn()(v) // before encoding (an encoder must not change the value)
+		if ib, ok := v.(*itemBox); ok {
+			// the limits of the serialiser, counted independently on the tree unfolding of the item
+			cnt, sz := itemCount(ib.it, 0), itemSize(ib.it, 0)
+			fits := cnt <= stackitem.MaxSerialized && sz <= stackitem.MaxSize
+			_, serr := stackitem.Serialize(ib.it)
+			switch {
+			case ib.protected: // the protected form writes an "invalid" marker instead of failing
+			case serr == nil && !fits:
+				o.Fail("item-serialize-over-limit", k, "Serialize accepts an item of %d items / %d bytes (limits %d / %d)", cnt, sz, stackitem.MaxSerialized, stackitem.MaxSize)
+			case serr != nil && fits:
+				o.Fail("item-serialize-rejects", k, "Serialize rejects (%v) an item of %d items / %d bytes (limits %d / %d)", serr, cnt, sz, stackitem.MaxSerialized, stackitem.MaxSize)
+			}
+			if !fits {
+				g.invalid = true
+				o.Count("item:over-limit")
+			} else if cnt > stackitem.MaxSerialized-64 {
+				o.Count("item:near-count-limit")
+			}
+		}
+		if cnt := 0; cnt == 0 {
+			want0 = c.showFn()(v) // before encoding (an encoder must not change the value)
+		}
 		var err error
 		b, cuts, err = c.encSeg(v)
 		if err != nil {
